@@ -337,6 +337,10 @@ class Gridder(GeospatialGrid):
         )
 
         total_segment_length = first_segment_length + second_segment_length
+        if total_segment_length == 0:
+            # repeated point on the antimeridian: the whole value stays in the
+            # first part
+            first_segment_length, total_segment_length = 1.0, 1.0
         return first_segment_length, second_segment_length, total_segment_length
 
     def _dateline_split_first_segment(
